@@ -2,14 +2,14 @@
 from __future__ import annotations
 
 from collections import Counter
-from typing import Any
+from typing import Any, Union
 
 from vmc.checks.common import Program, replay_program, run_programs
 from vmc.engine import BasicRuntime, EngineExec, MonRuntime, RunConfig, gate, make_step, make_workflow, task_outcome
 from vmc.events import A, B
 from vmc.explore import Execution, ReplayDivergence
 from vmc.progs import ENGINE_ASSUMPTIONS
-from workflows import catch_error
+from workflows import Context, catch_error, step
 from workflows.events import StartEvent, StepFailedEvent, StopEvent, WorkflowFailedEvent
 from workflows.retry_policy import retry_policy, stop_after_attempt, wait_fixed
 
@@ -31,6 +31,7 @@ LAYOUTS: dict[str, list[tuple[str, list[str] | None, str]]] = {
     # one lineage alternates between two handlers: a fails -> h_a emits B -> b fails -> h_b emits A -> ...
     "ping_pong_scoped": [("h_a", ["bad_a"], "other"), ("h_b", ["bad_b"], "other")],
     "ping_pong_scoped+wildcard": [("h_b", ["bad_b"], "other"), ("h_any", None, "other")],
+    "scoped_owner+wildcard_stop": [("h_a", ["bad_a"], "reenter"), ("h_any", None, "stop")],
 }
 
 
@@ -134,6 +135,128 @@ def execute(ex: Execution, layout: str, budget: int, lineages: int, with_retry: 
             "_metrics": {"max_concurrency": obs["max_concurrency"]}}, v
 
 
+# --- one instance, several runs, a step registered between them --------------------------------------------------
+class Go(StartEvent):
+    uid: int = 0
+    phase: int = 1
+
+
+def build_late(layout: str, budget: int, disable_validation: bool) -> tuple[Any, Any]:
+    """Phase 1 runs the plain layout (``start`` emits A#0, bad_a fails, ...).  Then ``bad_late`` - a free function
+    step that accepts the start event itself and always fails - is registered on the class with
+    ``@step(workflow=cls)``, and the SAME instance runs again with phase=2 (``start`` emits nothing, so bad_late's
+    failure is the only one)."""
+    async def start(self, ctx, ev, inv):  # noqa: ANN001
+        if ev.phase == 1:
+            ctx.send_event(A(uid=ev.uid))
+        return None
+
+    def failing(name: str) -> Any:
+        async def body(self, ctx, ev, inv):  # noqa: ANN001
+            await gate(f"{name}:{ev.uid}.{inv.retry.retry_number}")
+            raise RuntimeError(f"{name} failed on {ev.uid}")
+
+        return body
+
+    def handler(name: str, behaviour: str) -> Any:
+        async def body(self, ctx, ev, inv):  # noqa: ANN001
+            await gate(f"{name}:{getattr(ev.input_event, 'uid', 'x')}")
+            if behaviour == "raise":
+                raise LookupError(f"{name} failed")
+            if behaviour == "stop":
+                return StopEvent(result=f"{name} recovered {ev.step_name}")
+            return ev.input_event.model_copy(update={"uid": ev.input_event.uid + 100})  # re-enter, next generation
+
+        return body
+
+    steps = [
+        make_step("start", [Go], [A, None], start),
+        make_step("bad_a", [A], [StopEvent], failing("bad_a"), num_workers=2),
+    ]
+    for name, for_steps, behaviour in LAYOUTS[layout]:
+        kw: dict[str, Any] = {"max_recoveries": budget}
+        if for_steps is not None:
+            kw["for_steps"] = for_steps
+        steps.append(make_step(name, [StepFailedEvent], [A, Go, StopEvent], handler(name, behaviour),
+                               decorator=catch_error, deco_kwargs=kw))
+    cls = make_workflow("CatchLate", steps)
+
+    def register_late() -> None:
+        from vmc.engine import H
+
+        async def bad_late(ctx, ev):  # type: ignore[no-untyped-def]  # noqa: ANN001
+            if ev.phase != 2:
+                return None
+            h = H()
+            inv = h.enter("bad_late", ev, ctx)
+            try:
+                await gate(f"bad_late:{ev.uid}")
+                raise RuntimeError(f"bad_late failed on {ev.uid}")
+            except BaseException as e:  # noqa: BLE001
+                h.exit(inv, exc=e)
+                raise
+
+        bad_late.__annotations__ = {"ctx": Context, "ev": Go, "return": Union[StopEvent, None]}
+        step(workflow=cls, num_workers=1)(bad_late)
+
+    return cls(timeout=None, runtime=MonRuntime(BasicRuntime()), disable_validation=disable_validation), register_late
+
+
+def run_late_variant(ex: Execution, layout: str, budget: int, dv: bool, first_run: bool) -> list[dict[str, Any]]:
+    out_all = []
+    with EngineExec(ex, RunConfig(max_actions=120)) as e:
+        wf, register_late = build_late(layout, budget, dv)
+        for phase in ((1, 2) if first_run else (2,)):
+            if phase == 2:
+                register_late()
+            n_inv, n_pub = len(e.h.invocations), len(e.h.published)
+            e.h.stream_done = False
+            hd = wf.run(start_event=Go(uid=0, phase=phase), run_id=f"r{phase}")
+            e.consume_stream(hd)
+            e.cfg.stop_when = lambda hh, hd=hd: hd.is_done() and hh.stream_done
+            e.stuck = e.capped = False
+            e.drive()
+            h = e.h
+            out = task_outcome(hd._result_task)
+            invs = h.invocations[n_inv:]
+            entries = [(inv.step, (getattr(inv.ev.input_event, "uid", 99) % 100) if isinstance(inv.ev, StepFailedEvent) else (inv.ev.uid % 100),
+                        getattr(inv.ev, "step_name", None), type(inv.ev).__name__)
+                       for inv in invs if inv.step not in ("start",)]
+            failed_events = [(ev.step_name, repr(ev.exception)) for ev in h.published[n_pub:] if isinstance(ev, WorkflowFailedEvent)]
+            sfe = [inv.ev for inv in invs if isinstance(inv.ev, StepFailedEvent)]
+            out_all.append({"outcome": out[0], "value": repr(out[1].result if isinstance(out[1], StopEvent) else out[1]),
+                            "exc_type": type(out[1]).__name__ if out[0] == "exception" else None,
+                            "entries": entries, "failed_events": failed_events, "stuck": e.stuck, "capped": e.capped,
+                            "sfe": [(s.step_name, repr(s.exception), s.attempts) for s in sfe],
+                            "max_concurrency": h.max_concurrency, "phase": phase})
+    return out_all
+
+
+def execute_late(ex: Execution, layout: str, budget: int, first_run: bool) -> tuple[Any, list[Any]]:
+    v: list[Any] = []
+    runs = run_late_variant(ex, layout, budget, False, first_run)
+    for obs in runs:
+        w = {"layout": layout, "disable_validation": False, "late_step": True, "phase": obs["phase"]}
+        _check_against_reference(obs, layout, budget, 1, False, w, v, failing_step=("bad_a" if obs["phase"] == 1 else "bad_late"))
+    ex2 = Execution(ex.taken)
+    try:
+        runs2 = run_late_variant(ex2, layout, budget, True, first_run)
+        strip = lambda rs: [{k: o[k] for k in o if k != "max_concurrency"} for o in rs]  # noqa: E731
+        same = strip(runs) == strip(runs2) and ex2.taken == ex.taken and ex2.arity == ex.arity
+    except ReplayDivergence:
+        runs2, same = [{"diverged": True}], False
+    if not same:
+        v.append(("routing_depends_on_disable_validation", {"layout": layout, "late_step": True, "ran_before_registration": first_run},
+                  f"layout={layout} budget={budget}, step registered {'after a first run of' if first_run else 'before the first run of'} "
+                  f"the instance: validation on -> {[_short(o) for o in runs]}; disable_validation=True -> {[_short(o) for o in runs2]}"))
+    for obs2 in (runs2 if not runs2[0].get("diverged") else []):
+        w = {"layout": layout, "disable_validation": True, "late_step": True, "phase": obs2["phase"]}
+        _check_against_reference(obs2, layout, budget, 1, False, w, v, failing_step=("bad_a" if obs2["phase"] == 1 else "bad_late"))
+    last = runs[-1]
+    return {"outcome": last["outcome"], "value": last["value"], "entries": sum(len(o["entries"]) for o in runs),
+            "_metrics": {"max_concurrency": last["max_concurrency"]}}, v
+
+
 def _short(o: dict[str, Any]) -> str:
     if o.get("diverged"):
         return "schedule structure differs"
@@ -142,7 +265,7 @@ def _short(o: dict[str, Any]) -> str:
 
 
 def _check_against_reference(obs: dict[str, Any], layout: str, budget: int, lineages: int, with_retry: bool,
-                             w: dict[str, Any], v: list[Any]) -> None:
+                             w: dict[str, Any], v: list[Any], failing_step: str | None = None) -> None:
     handler_names = {h[0] for h in LAYOUTS[layout]}
     behaviour = {h[0]: h[2] for h in LAYOUTS[layout]}
     # (1) a StepFailedEvent goes to the owning handler only; never for a handler step's failure
@@ -159,7 +282,7 @@ def _check_against_reference(obs: dict[str, Any], layout: str, budget: int, line
         if n > budget:
             v.append(("recovery_budget_exceeded", w, f"handler {hname} entered {n} times on lineage {lineage}, max_recoveries={budget}"))
     # (3) outcome
-    failing_step = "bad_a" if lineages else "bad_b"
+    failing_step = failing_step or ("bad_a" if lineages else "bad_b")
     owner = ref_owner(layout, failing_step)
     if (obs["stuck"] or obs["capped"]) and obs["outcome"] == "pending":
         v.append(("run_never_finishes", w, f"stuck={obs['stuck']} capped={obs['capped']}: {_short(obs)}"))
@@ -211,12 +334,22 @@ def programs(tier: str) -> list[Program]:
         name = f"catch_b({layout};budget=1)"
         ps.append(Program(name, {"layout": layout, "budget": 1, "lineages": 0},
                           (lambda ex, layout=layout: execute(ex, layout, 1, 0, False))))
+    # one instance runs, a failing step is registered on the class afterwards, the same instance runs again
+    for layout in ("none", "wildcard", "wildcard_stop", "wildcard_raises", "scoped_owner", "scoped_owner+wildcard_stop"):
+        for budget in ((1,) if layout in ("none", "wildcard_stop", "wildcard_raises") else (1, 2)):
+            for first_run in (True, False):
+                name = f"late_step({layout};budget={budget};ran_before={first_run})"
+                ps.append(Program(name, {"layout": layout, "budget": budget, "first_run": first_run},
+                                  (lambda ex, layout=layout, budget=budget, first_run=first_run:
+                                   execute_late(ex, layout, budget, first_run))))
     return ps
 
 
 RULE = ("handler layouts {none, wildcard, scoped(owner), scoped(other), scoped(other)+wildcard, two scoped, handler "
         "that stops / raises} x max_recoveries 1..3 x lineages that re-enter the failing step x two concurrent "
-        "lineages x failing step with/without retries x disable_validation off/on x all schedules; routing is "
+        "lineages x failing step with/without retries x disable_validation off/on x {one run; an instance that runs, gets "
+        "a failing step registered on its class, and runs again; the step registered before the first run} x all "
+        "schedules; routing is "
         "compared with a reference owner map, handler entries per lineage with the budget, the outcome with the "
         "original exception + WorkflowFailedEvent, and the two validation settings with each other on the same "
         "schedule; non-trivial = at least one schedule deviation")
